@@ -265,7 +265,7 @@ func fullDirScript(nuniv int, hows []string) [][]any {
 	return sc
 }
 
-var allHows = []string{"string", "node", "segment", "native"}
+var allHows = []string{"string", "node", "segment", "native", "dpbnode"}
 
 func parseInts(s string) []int {
 	var out []int
@@ -409,7 +409,7 @@ func init() {
 						dc := &DirCase{Fam: "dir", ID: fmt.Sprintf("cold-%d-%v-%s", f, s, bld), Builder: bld, Fanout: f,
 							Universe: u, Entries: s, Links: links(s), Open: "reify", Mode: "sets"}
 						for id := 1; id <= len(u); id++ {
-							dc.Script = append(dc.Script, []any{"reopen"}, []any{"lookup", id, allHows[id%4]})
+							dc.Script = append(dc.Script, []any{"reopen"}, []any{"lookup", id, allHows[id%len(allHows)]})
 						}
 						if err := runDirCase(dc, tr); err != nil {
 							return err
@@ -594,7 +594,7 @@ func init() {
 				dc := &DirCase{Fam: "dir", ID: fmt.Sprintf("random-%d-%d", *seed, i), Builder: bld, Fanout: f, Universe: u,
 					Entries: ids, Links: links(ids), Open: []string{"reify", "preload"}[r.Intn(2)], Mode: "random"}
 				for j := 0; j < 12 && j < len(u); j++ {
-					dc.Script = append(dc.Script, []any{"lookup", 1 + r.Intn(len(u)), allHows[r.Intn(4)]})
+					dc.Script = append(dc.Script, []any{"lookup", 1 + r.Intn(len(u)), allHows[r.Intn(len(allHows))]})
 				}
 				dc.Script = append(dc.Script, []any{"iter", "map"}, []any{"length"}, []any{"iter", "native"})
 				if err := runDirCase(dc, tr); err != nil {
